@@ -92,6 +92,34 @@ CLAIMS["C15"] = _claim("Traces of real `jade pipeline submit` runs (1-4 stages, 
                        "created / active only after stage k's complete status, each stage created once and in order, "
                        "pipeline.json's stage number and return codes match what happened, pipeline complete last.", "5-C15")
 
+_FNOTE = ("the real functions are executed in-process on enumerated inputs with only the process/SLURM boundary stubbed; TLC "
+          "validates every recorded (input, output) observation against the operators of the specification module; string-level "
+          "fidelity is exercised over the generated alphabets only")
+CLAIMS["C17"] = ("exploration",
+                 "Abstract configurations over the public job/group models and every single injected invalidity are built with "
+                 "the real models, dumped, loaded and submitted (counting sbatch stub); TLC decides with Valid(cfg) of "
+                 "ConfigCheck.tla whether each observed verdict (accepted / rejected with which error, sbatch calls before the "
+                 "rejection, loaded projection = original projection) is right.", "5-C17", _FNOTE,
+                 "TLA+ oracle (ConfigCheck) + TLC validation of observations of the real code")
+CLAIMS["C18"] = ("model_checking",
+                 "Slurm.tla: the retry loop as a state machine (TLC: all outcome sequences, retries 0..6); operators for the "
+                 "expected #SBATCH directives, the terminal SLURM states and the submit-response classes; all 2^9 optional-field "
+                 "combinations, every SLURM state x whitespace rendering, 7 response classes and all retry outcome sequences are "
+                 "executed on the real code and validated by TLC.", "5-C18", _FNOTE,
+                 "TLA+ model (Slurm) checked by TLC + TLC validation of observations of the real code")
+CLAIMS["C19"] = ("model_checking",
+                 "Launch.tla: POSIX word splitting as a recursive operator, enumerated by TLC over all strings <=5 of a 7-symbol "
+                 "quoting alphabet; the same strings (x job names, append flags, exit codes 0..255) are launched through the real "
+                 "GenericCommandParameters / generate_command / AsyncCliCommand / ResultsAggregator with Popen captured, and TLC "
+                 "validates argv, appended --jade-* arguments, environment, stdio files and the recorded row.", "5-C19", _FNOTE,
+                 "TLA+ model (Launch) checked by TLC + TLC validation of observations of the real code")
+CLAIMS["C20"] = ("model_checking",
+                 "Reports.tla: the running min/max/sum machine (TLC: all sample sequences <=5 over 0..3) and the consolidation "
+                 "operators; all sample sequences <=4 are fed to the real ResourceMonitorAggregator (node and per-process), random "
+                 "event multisets over several files are consolidated twice with the real EventsSummary, and TLC validates the "
+                 "observations; results.json tallies are validated on whole submissions (TallyPartition).", "5-C20", _FNOTE,
+                 "TLA+ model (Reports) checked by TLC + TLC validation of observations of the real code")
+
 NOT_YET = "check not built yet in this round (the specification and harness are being extended property by property)"
 
 
